@@ -201,6 +201,23 @@ CHECKS["C01"] = {
                     "target streams carry increasing timestamps (otherwise the cache's timestamp discipline, C02, decides what is visible)"],
 }
 
+CHECKS["C12"] = {
+    "pkgs": ["cacheh", "subscribeh", "pipelineh"],
+    "quick": {"wall_s": 75, "race_wall_s": 0},
+    "thorough": {"wall_s": 720},
+    "rule": "Hostile-peer fault: protobuf-valid but adversarial messages (empty and root paths, paths equal to or under meta with right and "
+            "wrong value types, nil prefix / nil path, missing and empty values, non-scalar values, deprecated encodings, atomic containers "
+            "with an empty prefix, wildcard deletes on empty targets, huge key sets, empty element names, conflicting origins, unknown "
+            "modes, empty subscription lists) are delivered (i) by hostile targets through manager and the shipped collector glue, (ii) "
+            "directly into cache.GnmiUpdate mixed with ordinary traffic, lifecycle calls and metadata refreshes, (iii) by hostile clients to "
+            "the Subscribe server, (iv) by a hostile server to client/gnmi and cli.QueryDisplay in every display mode; always across a real "
+            "marshal/unmarshal. Every task of the system is wrapped: a panic whose stack is in repository code is a violation with the "
+            "function and panic class as signature; a rejected message must leave stored data intact. Non-trivial: >= 2 messages.",
+    "real": ["cache, value, ctree, path, subscribe, manager, client/gnmi, client, cli, cmd/gnmi_collector (instrumented)"],
+    "stub": ["gRPC transport (simgrpc)", "glog (messages are still formatted)"],
+    "assumptions": ["byte-level fuzzing of the wire format is a different technique and not done (DESIGN.md 12 A6)"],
+}
+
 UNDER_CONSTRUCTION = "check under construction, not claimed yet"
 NOT_APPLICABLE = {p: UNDER_CONSTRUCTION for p in ["C%02d" % i for i in range(1, 21)]}
 NOT_APPLICABLE["C19"] = ("pure functions of their input (path indexing, value conversion): no schedule, clock, fault, peer or "
@@ -214,6 +231,14 @@ _SUB_NOTE = ("Trusts the harness's reading of paths (sim/gen), the cache referen
              "stream's gRPC semantics (FIFO, reliable, window-limited) and interval reasoning on global event stamps. Leaves that are only "
              "stream-compatible with a subscription (shorter than its path) are outside 'matching content' and not judged.")
 LEVELS = {
+    "C12": {
+        "text": "Fault injection with structured hostile messages at every place a remote peer's message enters a process of the repository, in "
+                "states reached by ordinary seeded traffic; the oracle is the absence of panics in any simulated task plus state preservation "
+                "after a rejected message. Evidence, not proof; the wire-format fuzzing named in the quantifier is out of scope of this technique.",
+        "design_ref": "7 C12",
+        "note": "A panic is attributed by the innermost repository frame of its stack. Messages are generated, not mutated from coverage feedback.",
+        "technique": "deterministic simulation with hostile-peer fault injection; oracle = no task panics",
+    },
     "C01": {
         "text": "Whole-system simulation: the shipped collector and CLI main packages, the manager, caches, Subscribe server, gNMI client and CLI "
                 "display all run for real inside one simulated process group on a simulated transport, under the seeded scheduler and virtual "
